@@ -124,7 +124,15 @@ class _Node(nn.Module):
       elif k == 'sow':
         self.sow(op['col'], op['name'], x)
       elif k == 'perturb':
-        x = self.perturb(op['name'], x)
+        # the perturbed value need not be float32; the casts stay when the
+        # perturb call itself is stripped (op 'cast')
+        dt = op.get('dtype')
+        p = self.perturb(op['name'], x.astype(dt) if dt else x)
+        # what follows depends on the dtype of the value handed back
+        x = p.astype(x.dtype) + 0.0078125 * p.dtype.itemsize
+      elif k == 'cast':
+        p = x.astype(op['dtype'])
+        x = p.astype(x.dtype) + 0.0078125 * p.dtype.itemsize
       elif k == 'rng':
         key = self.make_rng(op['stream'])
         if not is_tracer(key):
@@ -472,6 +480,8 @@ def strip(prog, kinds):
   ops = []
   for op in prog['ops']:
     if op['op'] in kinds:
+      if op['op'] == 'perturb':
+        ops.append({'op': 'cast', 'dtype': op.get('dtype') or 'float32'})
       continue
     if op['op'] == 'sub':
       op = dict(op, prog=strip(op['prog'], kinds))
@@ -515,8 +525,9 @@ def op_strategy(inner, allow, style):
                           st.sampled_from(['s0', 's1'])).map(
         lambda t: {'op': 'sow', 'col': t[0], 'name': t[1]}))
   if 'perturb' in allow and style == 'compact':
-    opts.append(st.sampled_from(['p0', 'p1']).map(
-        lambda n: {'op': 'perturb', 'name': n}))
+    opts.append(st.tuples(st.sampled_from(['p0', 'p1']), st.sampled_from(
+        [None, None, 'bfloat16', 'float16', 'int32'])).map(
+            lambda t: {'op': 'perturb', 'name': t[0], 'dtype': t[1]}))
   if 'rng' in allow and style == 'compact':
     opts.append(st.sampled_from(STREAMS).map(
         lambda s: {'op': 'rng', 'stream': s}))
